@@ -1145,7 +1145,7 @@ class quantized_linear(base_quantizer.BaseQuantizer):
       alpha = "'" + self.alpha + "'"
       flags.append("alpha=" + alpha)
     elif self.alpha is not None:
-      alpha = np.array(alpha)
+      alpha = np.array(self.alpha)
       flags.append("alpha=" + str(alpha))
     if self.use_stochastic_rounding:
       flags.append("use_stochastic_rounding=" +
@@ -3230,8 +3230,6 @@ class quantized_hswish(quantized_bits):  # pylint: disable=invalid-name
             else self.integer
         ),
     )
-    assert isinstance(integer_bits, int)
-
     flags = [
         str(self.bits),
         integer_bits,
